@@ -17,13 +17,16 @@ import numpy as np
 from harness import common as C
 
 RULE = ('histories over the alphabet {read_x, read_y, read_r, read_t, crop, pad1, pad21, padshape0, mask, mask_r, fill, spike_clip, '
-        'remove_piston, remove_tiptilt, remove_power, recenter, latcal2, latcal037, strip_latcal, filter, exact_xy, exact_x, pvr, '
-        'slices, copy, psd}: exhaustive up to '
-        'length 3 on 6 configurations and 2 on the other 26 (quick) / 4 on 4 and 3 on the other 28, 5 over the coordinate-relevant sub-alphabet on 1 (thorough) by prefix-shared DFS on configurations '
-        '(shape in 8x8, 9x7, 12x9, 7x10; NaN pattern none / circular / ragged edge / interior dropouts; dx in 1, 0.37), plus '
-        'seeded random histories up to length 40; crop additionally on every shape of a list (wide, tall, square, odd/even, 1-wide) x all 16 combinations of touching-the-edge / all-invalid margin on the four sides x two margin-width assignments x caches empty/populated; every step of every history is one case; a case is non-trivial unless '
-        'the operation is a bare read on an object whose caches are already populated; distinct = distinct '
-        '(configuration, operation prefix)')
+        'remove_piston, remove_tiptilt, remove_power, recenter, latcal2, latcal037, strip_latcal, filter, exact_xy, exact_x, pvr, slices, '
+        'copy, psd} by prefix-shared DFS: quick = length 3 over 21 of the operations on 2 configurations and length 2 over all 26 on 26 more; '
+        'thorough = length 4 on 1, length 3 on 14, length 2 on the other 34, length 5 over the 11 coordinate-relevant operations on 1; '
+        'configurations = shape in {8x8, 9x7, 12x9, 7x10, 7x7} x invalid pattern in {none, circular, ragged edge, interior dropouts, mixed '
+        'NaN/+inf/-inf} x dx in {1, 0.37}; dx = 0 (constructor without lateral calibration) with length-2 histories over the operations '
+        'that do not divide by dx; seeded random histories up to length 40 with value-level model comparison at every step; crop '
+        'additionally on every shape of a list (wide, tall, square, odd/even, 1-wide) x all 16 combinations of touching-the-edge / '
+        'all-invalid margin on the four sides x two margin-width assignments x caches empty/populated. Every step of every history is '
+        'one case; a case is non-trivial unless the operation is a bare read on an object whose caches are already populated; '
+        'distinct = distinct (configuration, operation prefix)')
 ASSUMPTIONS = [
     'np.meshgrid / slicing / in-place arithmetic semantics (trusted); np.hypot / np.arctan2 are the polar transform',
     'np.linalg.lstsq returns the normal-equation solution when the design matrix has independent columns; tilt / power '
@@ -795,7 +798,7 @@ def correspondence(ctx):
         if i0._latcaled is not True or any(getattr(i0, a) is not None for a in ('_x', '_y', '_r', '_t')):
             ctx.disagree('constructor', cfg, f'_latcaled={i0._latcaled}', 'dx != 0: laterally calibrated; all caches empty')
     # exhaustive, prefix-shared
-    ndeep = ctx.scale(2 + widen, 2)
+    ndeep = ctx.scale(2 + widen, 1)
     deep = [cfgs[k] for k in order[:ndeep]]
     mid = [cfgs[k] for k in order[ndeep:]]
     for cfg in deep:
@@ -806,7 +809,7 @@ def correspondence(ctx):
     if not ctx.thorough:
         mid = mid[:26]
     for k, cfg in enumerate(mid):
-        _dfs(run, cfg, make_obj(cfg), [], [], ALPHABET, ctx.scale(2, 3) if not (ctx.thorough and k >= 20) else 2,
+        _dfs(run, cfg, make_obj(cfg), [], [], ALPHABET, ctx.scale(2, 3) if not (ctx.thorough and k >= 14) else 2,
              values=(k < 6))
     run.flush()
     if ctx.thorough:
@@ -943,10 +946,17 @@ MANIFEST_ENTRY = {
              'crop in the current source (translated, NumPy bound normalisation included) keeps exactly rows [left, rows-right) x columns '
              '[top, cols-bottom) for every shape. The real object is compared with the state machine '
              'and the value model after every step of exhaustive short and random long histories, and the property predicates '
-             'are evaluated on the real arrays themselves.'),
+             'are evaluated on the real arrays themselves. TRANSLATED and proved equal to the model: the five statistics of prysm.util as '
+             'list expressions (`gen_util_stats`; the identities are stated over them in `util_stats_identities`), their validity filter '
+             '(isfinite), which fitted columns tilt / power removal subtract, every path of the constructors (accepted by the analyser from '
+             'NO knowledge of the caches: `constructed_coherent`). The translator follows aliases (locals bound to self.data / a cache / a '
+             'view, out=, in-place methods, helpers that write into their argument). The Lean driver executes the effect lists translated '
+             'from the current source (sent over the wire), the hand table only in addition when they differ. Operations exercised on the '
+             'real object include exact_xy / exact_x (interpolated value at a grid node = the data there), pvr, slices, copy, psd (read-only: '
+             'data bit-identical), pad(value, shape=) with a block-placement predicate, maps with +-inf, dx = 0.'),
     'note': ('partial: the effect lists abstract array contents to affine grids (shape, origin, spacing) — that the NumPy '
              'statements have those effects is translated syntactically and validated by the history correspondence, not proved; '
-             '`filter` values, pvr and plotting are not modelled; np.linalg.lstsq is trusted to return the normal-equation '
+             '`filter` values, pvr values and plotting are not modelled; make_xy_grid / cart_to_polar / lstsq bodies are compared, not translated; validity preservation is proved for finite subtracted terms only; np.linalg.lstsq is trusted to return the normal-equation '
              'solution (idempotence is not claimed for rank-deficient designs such as a single valid sample); NaN propagation '
              'through FFT (filter after mask) is observed, not modelled. Trusted: Lean kernel + standard axioms, the ast->effect '
              'translator, NumPy semantics, float tolerances 1e-9.'),
